@@ -77,6 +77,12 @@ def judge_s2p(case, col):
     for face, tag in ((F, "nearest_face"), (G, "adjacent_face")):
         if use_buf:
             # a caller recycling one coordinate buffer: same list object, overwritten in place for every point
+            # (first a different point through the same face, so that the case does not depend on earlier cases)
+            _BUF[0], _BUF[1] = sp[0] + 0.01, min(math.pi, sp[1] + 0.003)
+            try:
+                proj.forward(_BUF, face)
+            except Exception:  # noqa: BLE001 - the priming point is not the case under judgement
+                pass
             _BUF[0], _BUF[1] = sp[0], sp[1]
             arg = _BUF
         else:
